@@ -9,7 +9,8 @@ Inductive obs :=
 | ODeliver (h c : N)          (* AcceptStream on h returned connection c *)
 | ORetClosed (h : N)          (* a pending AcceptStream on h returned ErrClosed *)
 | OFailNow (h : N)            (* AcceptStream on the closed handle h returned ErrClosed at once *)
-| OClose (h : N).
+| OClose (h : N)
+| OFailAcquire.               (* an acquisition that failed at bind: the address was held by another socket *)
 Record case := { c_trace : list obs; c_final_closed : list N }.   (* connections the server closed without delivering *)
 
 Definition gst_eqb (a b : gst) : bool :=
@@ -48,6 +49,7 @@ Definition visible (o : obs) (s : sl) : list sl :=
   | ODeliver h c => match g s with GHolding c' => if N.eqb c c' then st (Deliver h) else [] | _ => [] end
   | ORetClosed h => st (AcceptRetClosed h)
   | OFailNow h => if existsb (N.eqb h) (handles s) && h_closed (hstate s h) && negb (h_pending (hstate s h)) then [s] else []
+  | OFailAcquire => match sock s with Open => [] | _ => [s] end   (* only an unbound address can be taken; nothing changes *)
   | OClose h => if existsb (N.eqb h) (handles s) && h_closed (hstate s h) then [s] else st (CloseH h)   (* Close is idempotent *)
   end.
 
